@@ -316,13 +316,14 @@ def pyIterList (cfg : Cfg) (ty : Ty) (iterAttr : GetResult) (annotated : Bool) :
     else if cfg.iterListRefuses (tyIn cfg.allowedGetitem ty) then (.refused, g)
     else (.items, g ++ loopEvents ty)
 
-/-- `DirectObjectAccess.has_iter` -/
-def hasIter (cfg : Cfg) (ty : Ty) : List Ev :=
-  if cfg.hasIterExecutes then iterCallEvents ty else []
+/-- `DirectObjectAccess.has_iter`: `iter(obj)` looks `__iter__` up on the type (running the
+`__get__` of a descriptor stored under that name) and calls it -/
+def hasIter (cfg : Cfg) (ty : Ty) (iterAttr : GetResult) : List Ev :=
+  if cfg.hasIterExecutes then iterAttr.trace.map Ev.get ++ iterCallEvents ty else []
 
 /-- `CompiledValue.py__iter__`: `has_iter()` then `py__iter__list()` -/
 def compiledPyIter (cfg : Cfg) (ty : Ty) (iterAttr : GetResult) (annotated : Bool) : List Ev :=
-  hasIter cfg ty ++ (pyIterList cfg ty iterAttr annotated).2
+  hasIter cfg ty iterAttr ++ (pyIterList cfg ty iterAttr annotated).2
 
 /-- `DirectObjectAccess.py__bool__` -/
 def pyBool (cfg : Cfg) (ty : Ty) : List Ev :=
